@@ -514,4 +514,46 @@ def replayFrom (d : Down) : List Event → Option Down
 
 def replay (es : List Event) : Option Down := replayFrom [] es
 
+
+/-! ## Interface for composition (C01)
+
+* **State**: `Idx Sel` (`Idx.new Sel suppress` = `NewSelectorAndNamedPortIndex(suppress)`).
+  `Sel` is the selector type, evaluation is the parameter `matchSel : Sel → Labels → Bool`
+  (`Selector.Equal` is `=` on `Sel`).
+* **Inputs**: `Op Sel` — `updateIPSet` / `deleteIPSet` (from the rule scanner's
+  `OnIPSetActive` / `OnIPSetInactive`), `updateEndpoint` / `deleteEndpoint` (WEP / HEP /
+  NetworkSet KVs after `extractIPs` / `extractNetSet`), `updateParentLabels` /
+  `deleteParentLabels` (profile `LabelsToApply`); the `perm…` ops are Go map iteration order.
+* **Step**: `step matchSel : Idx Sel → Op Sel → Idx Sel`; `run matchSel st ops`;
+  `stepEvents` returns the callbacks of one op.
+* **Output**: `Event` (`added s m` = `OnMemberAdded`, `removed s m` = `OnMemberRemoved`,
+  `cleared s` = the consumer's `OnIPSetRemoved` issued together with `DeleteIPSet`);
+  `st.out` is the whole log, `replay st.out : Option Down` the consumer's IP sets under strict
+  application (`none` = a callback did not alternate).
+* **Spec refined** (below): `memberSpec matchSel st s m`, a function of the CURRENT inputs only
+  (`st.eps` data, `st.parents`, `st.ipsets` selector/protocol/port).  `Props/C04.lean`:
+  `ipset_members_eq_spec` — for every history `ops` with `∀ op ∈ ops, op.ok`,
+  `replay (run … ops).out = some D`, `D.Nodup`, no panic / wrap, and
+  `(s, m) ∈ D ↔ memberSpec … s m`;  `refcount_eq_card`;  `suppressed_cover_eq_spec`;
+  `run_suppress`.  `Op.ok` (in `Proofs/C04Main.lean`): nets canonical, profile-id lists
+  duplicate-free.
+-/
+
+section Spec
+variable {Sel : Type} [DecidableEq Sel]
+
+/-- Member `m` is contributed to set `s` by some endpoint / network set whose effective labels
+match the set's selector (`contrib` = its CIDRs, or for a named-port set the (address, protocol,
+port) combinations of its matching named ports). -/
+def contributed (matchSel : Sel → Labels → Bool) (st : Idx Sel) (s : String) (m : Member) : Prop :=
+  ∃ p ∈ st.eps, ∃ d, alGet s st.ipsets = some d ∧ matchSel d.sel (effLabels st p.2) = true ∧ m ∈ contrib p.2 d
+
+/-- What the consumer must hold: the contributed members; with overlap suppression, minus the
+CIDRs strictly inside another contributed CIDR of the same set. -/
+def memberSpec (matchSel : Sel → Labels → Bool) (st : Idx Sel) (s : String) (m : Member) : Prop :=
+  contributed matchSel st s m ∧
+  (st.suppress = true → ∀ c, m = .cidr c → ∀ c', contributed matchSel st s (.cidr c') → c'.sc c = false)
+
+end Spec
+
 end CalicoVerif.C04
